@@ -78,6 +78,7 @@ func runC14(c *Ctx) {
 	n := c.checkBufferReuse("published-buffer-reuse", bscope)
 	L.Note("published-buffer-reuse: %d publication sites examined in package align", n)
 	L.Floor("published-buffer-reuse", 20, "functions of package align that store slices into structs/containers")
+	c.checkLenOfEmpty("len-of-empty", c.P.SrcFuncs("align"))
 	L.Assumes("alignment shape invariant: every row reached through the receiver has the cached length")
 	L.Trusts("effect table for standard-library callees (sa/rules/e3_effects.go)")
 }
